@@ -25,7 +25,7 @@ VARIABLES st, l
 tvars == <<st, l>>
 
 NoCur == [ty |-> 0, val |-> NullV, pk |-> <<>>, canonical |-> FALSE, etype |-> "rec", allc |-> TRUE, isref |-> FALSE,
-          cmp |-> FALSE, perm |-> FALSE, extra |-> FALSE, deep |-> FALSE, src |-> "", stopped |-> FALSE, lax |-> TRUE]
+          cmp |-> FALSE, perm |-> FALSE, extra |-> FALSE, deep |-> FALSE, src |-> "", stopped |-> FALSE, lax |-> TRUE, bare |-> FALSE]
 NoDone == [has |-> FALSE, ok |-> FALSE, val |-> UnitRV, reps |-> <<>>, final |-> <<>>]
 
 InitSt == [stack |-> <<>>, cur |-> NoCur, made |-> {}, reps |-> <<>>, phase |-> "none", runbad |-> TRUE,
@@ -55,7 +55,7 @@ StartRun(s, e) ==
                 allc |-> (e.dflt = "c" /\ AllOnes(e.script) /\ e.etype = "rec"), isref |-> isref,
                 cmp |-> (~isref /\ e.etype = "rec" /\ ~e.inp.perm /\ ~e.inp.extra /\ ~e.deep), perm |-> (~isref /\ e.inp.perm /\ e.etype = "rec"),
                 extra |-> (~isref /\ e.inp.extra /\ e.etype = "rec"),
-                deep |-> e.deep, src |-> e.src, stopped |-> FALSE, lax |-> TRUE]
+                deep |-> e.deep, src |-> e.src, stopped |-> FALSE, lax |-> TRUE, bare |-> e.bare]
     IN [s EXCEPT !.stack = <<>>, !.cur = cur, !.made = {}, !.reps = <<>>, !.repids = <<>>, !.fnf = {}, !.idp = <<>>, !.waived = <<>>, !.phase = "idle", !.runbad = FALSE,
                  !.refev = IF isref THEN <<>> ELSE @, !.pos = 0, !.diverged = FALSE,
                  !.refok = IF isref THEN TRUE ELSE @,
@@ -365,7 +365,11 @@ OnExit(s, e) ==
             ELSE IF \E c \in cands : c.ok THEN
                  IF ValueAgrees(F, e.val) THEN Seen(s1, {"C01", "C06"} \cup ExitProps(N))
                  ELSE Flag(s, ExitProps(N), "the value returned is not the one the payload prescribes")
-            ELSE IF \E c \in Candidates(s.stack, s.cur) : c.e = "call" THEN Flag(s, {"C11"}, "Ok is returned without running the map / validate function that is due")
+            ELSE IF \E c \in Candidates(s.stack, s.cur) : c.e = "call" THEN
+                 \* `map` is also due on top of a default / on a skipped field (C08)
+                 Flag(s, {"C11"} \cup (IF \E c \in Candidates(s.stack, s.cur) : c.e = "call" /\ c.argk = "map" /\ F.val.t = "map"
+                                                /\ ~\E j \in 1..Len(F.val.e) : RouteK(N, F.vi, F.fkeys, F.val.e[j].k) = c.fi THEN {"C08"} ELSE {}),
+                      "Ok is returned without running the map / validate function that is due")
             ELSE IF F.ph = "bad" THEN Flag(s, ExitProps(N) \cup {"C04"} \cup KeepGoing(s), "Ok is returned for a value the target cannot accept, without any report")
             ELSE Flag(s, {"C02"} \cup PendProps(F), "Ok is returned before every element / member / field was examined")
        ELSE \* error exit
@@ -464,16 +468,46 @@ MsgStep(s, e) ==
     ELSE IF MessagesAgree(e, s.cur.val) THEN Seen([s EXCEPT !.nmsg = @ + 1], {"C14"})
     ELSE SoftFlag(s, {"C14"}, "a built-in message does not consist of the path, value, names and alternatives of the report it renders")
 
+\* Probe-free twins (the definitions written the way a user writes them: the derive sees `Option<u8>`, `Vec<bool>` ... as such).
+\* Without probes there are no enter / exit events and the machine cannot be followed; the run is judged at its end against the
+\* declarative semantics: a keep-going run reports exactly Faults and a successful run yields ValueOf; every run's result is made
+\* of the reports it made (C01); scripted runs are compared with the keep-going run event by event (PrefixStep), built-in error
+\* types with its first report, permuted / extended runs with the reference run (GroupDone), messages with DMessages.
+BareEvent(s, e) ==
+    CASE e.e = "err" -> LET m == MsgStep(s, e) IN
+                        [m EXCEPT !.reps = Append(@, ObsDesc(e)), !.repids = Append(@, e.id), !.nrep = @ + 1, !.made = @ \cup {e.id},
+                                  !.nbrk = IF e.ans = "b" THEN @ + 1 ELSE @,
+                                  !.ref1 = IF s.cur.isref /\ ~@.has THEN [has |-> TRUE, mj |-> e.mj, mq |-> e.mq] ELSE @]
+      [] OTHER -> s
+BareRootProps(n) == ExitProps(Nodes[n]) \cup {"C06"}
+BareDone(s0, e) ==
+    LET s == DoneC01(s0, e)
+        faults == Faults(s.cur.ty, s.cur.val, <<>>, s.cur.pk, {})
+        got == s.reps
+        diff == {got[j] : j \in {k \in 1..Len(got) : Count(got, got[k]) # Count(faults, got[k])}}
+                \cup {faults[j] : j \in {k \in 1..Len(faults) : Count(got, faults[k]) # Count(faults, faults[k])}}
+        kp(d) == CASE d.k = "missing" -> {"C08"} [] d.k = "unknownkey" -> {"C09"} [] d.k = "unknownvalue" -> {"C10"}
+                   [] d.k = "badlen" -> {"C06"} [] OTHER -> {}
+        s1 == [s EXCEPT !.phase = "done"]
+    IN IF s.cur.etype # "rec" THEN s1
+       ELSE IF s.cur.allc /\ ~SameBag(got, faults)
+            THEN Flag(s1, {"C02", "C04"} \cup UNION {kp(d) : d \in diff}, "a probe-free type: the keep-going run does not report exactly the independent faults of the payload")
+       ELSE IF e.ok /\ ~EqMod(e.val, ValueOf(s.cur.ty, s.cur.val, s.cur.pk))
+            THEN Flag(s1, BareRootProps(s.cur.ty), "a probe-free type: the value returned is not the one the payload prescribes")
+       ELSE IF e.ok /\ faults # <<>> THEN Flag(s1, {"C02", "C04"} \cup BareRootProps(s.cur.ty), "a probe-free type: Ok is returned for a payload that has faults")
+       ELSE Seen(s1, {"C01", "C02", "C06", "C07", "C08", "C09", "C10"})
+
 Step(s, e) ==
     CASE e.e \in {"reset", "run"} -> StartRun(s, e)
       [] e.e = "panic" -> Flag(s, {"C12"} \cup (IF s.cur.extra THEN {"C09"} ELSE {}) \cup (IF s.cur.perm THEN {"C15"} ELSE {}),
                                "deserialize panicked")      \* a panic is a fact, whatever happened before in the run
       [] s.cur.deep -> s                                                 \* deep nests are not spelled out: only totality is judged
-      [] e.e = "done"  -> GroupDone(IF s.runbad THEN DoneDegraded(s, e) ELSE OnDone(s, e), e)
+      [] e.e = "done"  -> GroupDone(IF s.cur.bare THEN BareDone(s, e) ELSE IF s.runbad THEN DoneDegraded(s, e) ELSE OnDone(s, e), e)
       [] s.cur.etype # "rec" -> s
       [] OTHER ->
             LET p == PrefixStep(s, e) IN
-            IF p.runbad THEN Degraded(IF e.e = "err" THEN MsgStep(p, e) ELSE p, e)
+            IF s.cur.bare THEN BareEvent(p, e)
+            ELSE IF p.runbad THEN Degraded(IF e.e = "err" THEN MsgStep(p, e) ELSE p, e)
             ELSE CASE e.e = "enter" -> OnEnter(p, e)
                    [] e.e = "err"   -> OnErr(MsgStep(p, e), e)
                    [] e.e = "mrg"   -> OnMrg(p, e)
